@@ -94,6 +94,9 @@ def structural_update(op, tree_tpl, parallel=False):
         return {'agents': {'_divide': {'mother': op['k'], 'daughters': ds}}}
     if o == 'move':
         return {'agents': {'_move': [{'source': (op['k'],), 'target': 'pool'}]}}
+    if o == 'moveupd':
+        return {'agents': {'_move': [{'source': (op['k'],), 'target': 'pool',
+                                      'update': {'v': {'x': 3}}}]}}
     if o == 'moveback':
         return {'pool': {'_move': [{'source': (op['k'],), 'target': 'agents'}]}}
     if o == 'adddel':
@@ -497,6 +500,7 @@ def applicable_ops(model, tpls=('T1', 'T2', 'T3'), names=NAMES, max_comps=3):
             ops.append({'op': 'delpath', 'k': k})
             if k not in po:
                 ops.append({'op': 'move', 'k': k})
+                ops.append({'op': 'moveupd', 'k': k})
             free = [d for d in names if d not in ag]
             if len(free) >= 2 and n < max_comps:
                 ops.append({'op': 'div', 'k': k, 'd1': free[0], 'd2': free[1]})
@@ -527,7 +531,7 @@ def apply_model(model, op):
         t = m['agents'].pop(op['k'])
         m['agents'][op['d1']] = t
         m['agents'][op['d2']] = t
-    if o == 'move':
+    if o in ('move', 'moveupd'):
         m['pool'][op['k']] = m['agents'].pop(op['k'])
     if o == 'moveback':
         m['agents'][op['k']] = m['pool'].pop(op['k'])
